@@ -2,7 +2,7 @@
     Only statements, each closed by [exact].  Model under [cfg_fixed]; [reach] = every history. *)
 From BX Require Import Model.Router Proofs.RouterProofs.
 From BX Require Import Base.Prelude Base.Fsm Model.TxFsm Model.TxMgr Model.Interchain Model.IbtpExec Model.IbtpMon Model.IbtpJudge
-     Proofs.IbtpInv Proofs.IbtpBlock Proofs.IbtpGroup Proofs.IbtpProps Proofs.IbtpNotify.
+     Proofs.IbtpInv Proofs.IbtpBlock Proofs.IbtpGroup Proofs.IbtpProps Proofs.IbtpNotify Proofs.IbtpGArm.
 From BX Require Import Proofs.IbtpMonProofs.
 Local Open Scope N_scope.
 
@@ -82,12 +82,25 @@ Theorem C05_notify_timeout : forall w st ops st' bm mid t2 g gi k s,
 Proof. exact c05_notify_timeout. Qed.
 Print Assumptions C05_notify_timeout.
 
+(** ... and the group's id IS read at its timeout height: a group that is still BEGIN when the transactions of
+    the block of its recorded timeout height have run is rolled back in that block (every child announced, global
+    status BEGIN_ROLLBACK, from which SUCCESS is unreachable); invariant [GArm], Proofs/IbtpGArm.v *)
+Theorem C05_timeout_fires : forall w st ops st' bm mid t2 g gi k s,
+  reach w st -> Forall (op_wf w) ops -> s_h st + 1 < W64 -> block_facts w st ops st' bm mid t2 ->
+  tm_glob (s_tm mid) g = Some gi -> g_state gi = ST_BEGIN -> g_height gi = s_h st + 1 ->
+  In (k, s) (g_children gi) ->
+  In k (m_timeout bm (chain_of w (fst (fst k)))) /\
+  (s = ST_SUCCESS -> In k (m_timeout bm (chain_of w (snd (fst k))))) /\
+  gstate (s_tm st') g = Some ST_BEGIN_ROLLBACK.
+Proof. exact group_timeout. Qed.
+Print Assumptions C05_timeout_fires.
+
 (** (that the notify map of height h is not touched after the block, i.e. MultiTxCounter of the block is
     exactly this map, is by construction of [exec_block]: [m_multi bm = get_multi (s_ic mid) h].) *)
 
 (** the boolean predicate the judge evaluates on implementation traces is exactly the inductively
     defined trace property [C05_trace] (Proofs/IbtpMonProofs.v) *)
-Theorem C05_predicate_reflects : forall w q items tr, c05_b w q items tr = true <-> C05_trace w q None items tr.
+Theorem C05_predicate_reflects : forall w q items tr, c05_b w q items tr = true <-> C05_trace w q 2 None items tr.
 Proof. exact c05_b_spec. Qed.
 Print Assumptions C05_predicate_reflects.
 
